@@ -71,12 +71,30 @@ let argv_of_token (t : string) : str list =
   let body = String.sub t (String.index t ':' + 1) (String.length t - String.index t ':' - 1) in
   if body = "!" then [] else List.map (fun x -> str_of_ocaml (pct_decode x)) (String.split_on_char ',' body)
 
+(* `DUMPSEQ <name>=<0|1|2> ..` (what get_stream / get_raw_stream answer per stream kind: Ok | StreamNotFound | another error)
+   -> the printer calls of --dump in order: H header | S:<T> T::print | L fixed text | R:<name> print_raw_stream *)
+let char_of_ascii (Ascii (b0, b1, b2, b3, b4, b5, b6, b7)) : char =
+  let v b i = if b then 1 lsl i else 0 in
+  Char.chr (v b0 0 + v b1 1 + v b2 2 + v b3 3 + v b4 4 + v b5 5 + v b6 6 + v b7 7)
+let ocaml_of_str (s : str) : string =
+  let b = Buffer.create 32 in
+  let rec go = function SNil -> () | SCons (c, r) -> Buffer.add_char b (char_of_ascii c); go r in
+  go s; Buffer.contents b
+let dump_seq (toks : string list) : string =
+  let kv = List.map (fun t ->
+    let i = String.index t '=' in
+    (str_of_ocaml (String.sub t 0 i), z_of_int (int_of_string (String.sub t (i + 1) (String.length t - i - 1))))) toks in
+  String.concat "," (List.map (fun (k, n) ->
+    match int_of_z k with
+    | 0 -> "H" | 1 -> "S:" ^ ocaml_of_str n | 2 -> "L" | _ -> "R:" ^ ocaml_of_str n) (dump_case kv))
+
 let () =
   try
     while true do
       let line = input_line stdin in
       if String.length line > 0 && line.[0] <> '#' then begin
         match split_ws line with
+        | "DUMPSEQ" :: toks -> print_endline (dump_seq toks)
         | _input :: sym :: modes :: brief :: pretty :: feat :: rfa :: out :: cy :: log :: verbose :: stdout_c :: _evil :: _noflags :: rest ->
           let lim = (match rest with l :: _ -> l <> "0" | [] -> false) in
           let has c = String.contains modes c in
